@@ -242,9 +242,20 @@ def run(pid, tier, seed):
             ev.stat("paired-solve-status:%s" % (ra[1][0] if ra[1] else "?"))
             sa, sb = (ra[1] or ["?"])[0], (rb[1] or ["?"])[0]
             definitive = ("1", "2", "3")
-            # OPTIMAL for the (warm-started) original and OBJ_LIMIT for the cold copy is path dependence: the original may sit at
-            # its optimum without a single pivot, the copy crosses the limit on its way there.  The other direction is not.
-            differs = ra[0] != rb[0] or (sa in definitive and sb in definitive and ra != rb) or (sa, sb) == ("9", "1")
+            # OPTIMAL on one side and OBJ_LIMIT on the other: which of the two a run reports depends on its path (warm or cold
+            # start, primal or dual pivots), but OBJ_LIMIT is only a legitimate early stop when the optimum lies beyond a limit.
+            # So the pair is consistent iff the reported optimal value is outside the open interval of the original's limits
+            # (taken from the parameter dump made right after the copy); a copy with garbled limits shows up here.
+            objlim_clash = False
+            if {sa, sb} == {"1", "9"}:
+                val = (ra[2] if sa == "1" else rb[2]) or ["1", "0"]
+                qp = next((proto.get(b0, "qparams") for (kd0, k0, c0), (_, b0) in reversed(blocks[:idx]) if kd0 == "params" and str(k0) == ca.split()[1] and proto.get(b0, "qparams")), None)
+                if val[0] == "0" and qp and len(qp) >= 3:
+                    v = gen.s2q(val[1])
+                    up = None if qp[1] in ("inf", "err") else gen.s2q(qp[1])
+                    lo = None if qp[2] in ("-inf", "err") else gen.s2q(qp[2])
+                    objlim_clash = (up is None or v < up) and (lo is None or v > lo)
+            differs = ra[0] != rb[0] or (sa in definitive and sb in definitive and ra != rb) or objlim_clash
             if ra != rb and not differs:
                 # a fresh copy starts from scratch while the original may continue from its last basis: iteration / time limits,
                 # UNSOLVED, and OBJ_LIMIT versus INFEASIBLE / UNBOUNDED are not statements about the problem
@@ -340,6 +351,37 @@ def run(pid, tier, seed):
                     if proto.get(dumps[7][1], key) != proto.get(dumps[6][1], key):
                         rep.violation("freeing the original changed the copy (%s)" % key, ctx, signature={"symptom": "not-independent", "key": key, "op": "free"})
                         break
+
+    # ------------------------------------------------------------ (b') cold pairs: a never-solved problem with an objective limit and its copy
+    # start from the same state, so the same algorithm must give the same answer - including "objective limit reached"
+    cjobs = []
+    cr = rng.fork("coldpairs")
+    for k in range(120 if quick else 1500):
+        lp = gen.random_lp(cr, m=cr.rint(2, 6), n=cr.rint(2, 6), dens=0.7, shapes=["box", "default", "box", "default", "upper"])
+        lp.sense = cr.choice(["min", "max"])
+        lines = ["new 0 " + lp.line()]
+        for _ in range(cr.rint(1, 2)):
+            lines.append("setlim 0 %s %s" % (cr.choice("UL"), q2s(F(cr.rint(-30, 30), cr.choice([1, 2, 3])))))
+        lines += ["copy 0 1", "qparams 0", "qparams 1"]
+        alg = cr.choice(["primal", "dual", "dual"])
+        lines += ["solve 0 " + alg, "solve 1 " + alg]
+        cjobs.append(lines)
+    with ThreadPoolExecutor(build.NCPU) as ex:
+        ctrs = list(ex.map(lambda l: proto.run_harness(exe, l, timeout=300), cjobs))
+    for lines, tr in zip(cjobs, ctrs):
+        ev.stat("cold-pairs")
+        ev.count("|".join(lines))
+        if tr.crashed or len(tr) < len(lines):
+            rep.violation("library crashed on a fresh problem with an objective limit and its copy: " + (tr.crashed or "")[-300:], {"lines": lines, "stderr": tr.stderr[-1500:]},
+                          signature={"symptom": "crash", "op": "cold-pair"})
+            continue
+        ba, bb = tr[-2][1], tr[-1][1]
+        ra = (proto.get(ba, "rval"), proto.get(ba, "status"), proto.get(ba, "objval") if proto.get(ba, "status") == ["1"] else None)
+        rb = (proto.get(bb, "rval"), proto.get(bb, "status"), proto.get(bb, "objval") if proto.get(bb, "status") == ["1"] else None)
+        ev.stat("cold-pair-status:%s" % (ra[1][0] if ra[1] else "?"))
+        if ra != rb:
+            rep.violation("a never-solved problem and its copy are solved differently by the same algorithm: original %s, copy %s" % (ra, rb), {"lines": lines},
+                          signature={"symptom": "cold-pair-differs", "statuses": "/".join(sorted([(ra[1] or ["?"])[0], (rb[1] or ["?"])[0]]))})
 
     # ------------------------------------------------------------ (c) reduced-precision copies
     lps = lpfam.mixed(rng.fork("lowprec"), 150 if quick else 3000)
